@@ -959,3 +959,40 @@ impl Prop for C14 {
         vec![Box::new(BytesDomain), Box::new(MutDomain), Box::new(UnsupportedDomain)]
     }
 }
+
+// ---------------------------------------------------------------------------------------
+// entry points of the libFuzzer targets (thorough tier)
+// ---------------------------------------------------------------------------------------
+
+/// fz_header: the oracle of the header_bytes domain on raw fuzzer input
+pub fn fuzz_header(data: &[u8]) -> Option<Violation> {
+    run_header_bytes(data, "libfuzzer").violation
+}
+
+/// fz_image: structure-aware decoding of the fuzzer input into a mutated-image case, run
+/// in-process (the fuzzer itself contains crashes)
+pub fn fuzz_image(data: &[u8]) -> Option<Violation> {
+    let raw = RawCase::from_bytes(data);
+    let none = Exclusions::default();
+    let case = MutDomain.decode(&raw, &none);
+    let c: C14Case = serde_json::from_value(case).ok()?;
+    run_case(&c).violation
+}
+
+/// seed corpus helpers: serialised RawCases / plausible headers
+pub fn corpus_header_samples() -> Vec<Vec<u8>> {
+    let mut out = Vec::new();
+    for k in 0..24u16 {
+        let raw = RawCase {
+            head: (0..600).map(|i| (i as u16).wrapping_mul(2654 + k * 17).wrapping_add(k * 4099)).collect(),
+            img: vec![],
+            ops: vec![],
+            sched: vec![],
+            extra: vec![],
+        };
+        if let C14Case::HeaderBytes { hex, .. } = gen_header_bytes(&raw) {
+            out.push(unhex(&hex));
+        }
+    }
+    out
+}
